@@ -15,7 +15,7 @@ import (
 func init() {
 	register(&explore.Prop{
 		ID: "C18", Level: levelMC, Explorer: "E1 input-space enumerator",
-		Rule: "segments = MIX batches and three batches with an indexed field whose name is the empty string (built, persisted+loaded, self-merged so that single-doc terms are 1-hit encoded, and the empty batch) x every list of <=3 (thorough <=4) (field, term) pairs over fields {_id, a, b, unknown, \"\"} x terms {general, 1-hit candidate, doc id, absent}, repeats allowed; result bitmap compared with the model's union; " +
+		Rule: "segments = MIX batches and three batches with an indexed field whose name is the empty string (built, persisted+loaded, self-merged so that single-doc terms are 1-hit encoded, and the empty batch) x every list of <=3 (thorough <=4) (field, term) pairs over fields {_id, a, b, unknown, \"\"} x terms {general, 1-hit candidate, doc id, absent}, repeats allowed; plus a 130-document segment with every list of <=2 pairs and lists of <=6 pairs over a 3-pair alphabet; result bitmap compared with the model's union; " +
 			"distinct = (segment, form, list); non-trivial = list has >=2 entries with a field switch, or names an unknown/empty field",
 		Assumptions: commonAssumptions, Budget: qBudget, Run: runC18,
 	})
@@ -58,6 +58,11 @@ func runC18(c *explore.Ctx) {
 	enumerate := func(yield func(bidx int64, batch []gen.Doc, kinds []int) bool) {
 		emptyNamed(yield)
 		gen.Mix(K, nd, "m", yield)
+	}
+	// a 130-document segment (two stored blocks, multi-document lists) with every list of <=2 pairs,
+	// and lists of up to 6 pairs over a 3-pair alphabet on a small segment
+	if c.Shard == 0 || c.Replay {
+		c18Extra(c)
 	}
 	enumerate(func(bidx int64, batch []gen.Doc, kinds []int) bool {
 		ls := model.Build(batch)
@@ -140,4 +145,77 @@ func runC18(c *explore.Ctx) {
 		}
 		return !c.Expired()
 	})
+}
+
+func c18Extra(c *explore.Ctx) {
+	type cs struct {
+		name   string
+		batch  []gen.Doc
+		pairs  []pairT
+		maxLen int
+	}
+	big := c09Batch()
+	cases := []cs{
+		{"BIG130", big, []pairT{{"a", "x"}, {"a", "u3"}, {"a", "u39"}, {"_id", "r7"}, {"_id", "r129"}, {"b", "t1"}, {"b", "t6"}, {"nosuch", "x"}, {"a", "zz"}}, 2},
+		{"LONGLIST", []gen.Doc{gen.MixDoc(2, "m", 0), gen.MixDoc(1, "m", 1), gen.MixDoc(2, "m", 2), gen.MixDoc(1, "m", 3)}, []pairT{{"a", "x"}, {"a", "um1"}, {"_id", "m3"}}, 6},
+	}
+	for _, cse := range cases {
+		ls := model.Build(cse.batch)
+		for fi, form := range []string{"built", "loaded", "merged"} {
+			scope := "EXTRA-" + cse.name + "/" + form
+			if c.Replay && c.ReplayScope != scope {
+				continue
+			}
+			c.Begin(scope, 0)
+			seg, err := build(cse.batch, 1025)
+			if err != nil {
+				c.Violate(scope, 0, sigOf("C18", "build", "error: "+err.Error()), err.Error(), cse.name)
+				continue
+			}
+			want := ls
+			seg, want, err = inputForm(seg, ls, fi, 1025)
+			if err != nil {
+				c.Violate(scope, 0, sigOf("C18", "form", "error: "+err.Error()), err.Error(), cse.name)
+				continue
+			}
+			var idx int64
+			for n := 0; n <= cse.maxLen; n++ {
+				gen.Pow(len(cse.pairs), n, func(v []int) bool {
+					my := idx
+					idx++
+					if c.Replay && my != c.ReplayIndex {
+						return true
+					}
+					c.Eval()
+					c.R.Distinct++
+					c.Nontrivial()
+					list := make([]segment.Term, n)
+					wantSet := map[uint32]bool{}
+					for i, pi := range v {
+						list[i] = cse.pairs[pi]
+						for _, d := range want.Postings(cse.pairs[pi].f, cse.pairs[pi].t) {
+							wantSet[uint32(d)] = true
+						}
+					}
+					var bm *roaring.Bitmap
+					var err error
+					msg := explore.Guard(func() { bm, err = seg.DocsMatchingTerms(list) })
+					cas := fmt.Sprintf("%s list=%v", scope, list)
+					if msg != "" || err != nil {
+						c.Violate(scope, my, sigOf("C18", form, "error: "+errText(msg, err)), errText(msg, err), cas)
+						return true
+					}
+					var w []uint32
+					for d := range wantSet {
+						w = append(w, d)
+					}
+					sort.Slice(w, func(i, j int) bool { return w[i] < w[j] })
+					if fmt.Sprint(bm.ToArray()) != fmt.Sprint(w) {
+						c.Violate(scope, my, "C18/"+form+"/wrong", fmt.Sprintf("got %v want %v", bm.ToArray(), w), cas)
+					}
+					return true
+				})
+			}
+		}
+	}
 }
